@@ -11,7 +11,7 @@ RULE = ("cases are import graphs (DAGs) over up to 4 (quick) / 5 (thorough) modu
         "`import a, b from m`, the type-only `import type T from m` or the mixed `import type T, a, b from m`, each import statement sits at a chosen position among the importer's side-effecting top-level "
         "statements and is followed by a call that bumps the imported module's counter (or, for a type-only import, a declaration that uses the type); modules live flat, partly in a "
         "sub-directory, in alternating directories that reach each other through `../`, each in a directory of its own under a file name shared with other modules and with the entry (`d1/main.ms`, `d2/u.ms`, `d3/u.ms`), or flat with a same-named DIRECTORY next to every module file (`m1.ms` + `m1/part_1.ms`); paths optionally spelled with `./`; every module exports a bump function, a getter, a list and a scalar "
-        "and keeps one private name. Enumerated: all DAGs over <= 3 modules x all four import forms per edge x 2 placements; random: "
+        "and keeps one private name; an EDIT / REBUILD cycle: the project is built (`run` + `compile` + `execute`, or `compile` + `execute` alone), one module - each in turn - is edited (new first trace line, counter starts at 50; written with a modification time later than every file next to it) and the project is built again: the second build must behave like a first build of the edited project. Enumerated: all DAGs over <= 3 modules x all four import forms per edge x 2 placements; random: "
         "Hypothesis graphs. Oracle: a depth-first simulation (each module once, at its first executed import, completed before "
         "the importer continues; one counter per module shared by all importers) prescribes the exact trace, checked under `run` "
         "and under `compile` + `execute`; negative variants (use of a private name, assignment through the module object) must be "
@@ -70,6 +70,11 @@ def build(case):
     prof = {int(k): v for k, v in (case.get("profiles") or {}).items()}
     P = lambda k: prof.get(k, "full")
     infn = [list(x) for x in (case.get("infn") or [])]
+    # the module that was edited after the first build (None: the project as first written): its first trace line says so and its
+    # counter starts at 50
+    edited = case.get("edited_now")
+    start = lambda k: 50 if k == edited else 0
+    tag0 = lambda k: "m%d:0%s" % (k, " edited" if k == edited else "")
     by_src = {k: sorted([e for e in all_edges if e[0] == k], key=lambda e: (e[3], e[1])) for k in range(n)}
     files = {}
     for k in range(n):
@@ -102,7 +107,7 @@ def build(case):
             else:
                 slots[slot].append("import bump_%d, get_%d from %s" % (j, j, p))
                 slots[slot].append("print \"m%d->m%d \" + bump_%d()" % (i, j, j))
-        lines.append("print \"m%d:0\"" % k)
+        lines.append("print \"%s\"" % tag0(k))
         lines += slots[0]
         if k > 0 and P(k) == "none":
             lines += ["hidden_%d = %d" % (k, 100 + k)]
@@ -110,7 +115,7 @@ def build(case):
             lines += ["hidden_%d = %d" % (k, 100 + k), "export const tag_%d: int = %d" % (k, 7 * k)]
         elif k > 0:
             lines += ["hidden_%d = %d" % (k, 100 + k),
-                      "export counter_%d: int = 0" % k,
+                      "export counter_%d: int = %d" % (k, start(k)),
                       "export bump_%d: fn() -> int = fn() -> int {\n\tmodify counter_%d = counter_%d + 1\n\treturn counter_%d\n}" % (k, k, k, k),
                       "export get_%d: fn() -> int = fn() -> int {\n\treturn counter_%d + hidden_%d - %d\n}" % (k, k, k, 100 + k),
                       "export items_%d: [int...] = [%d]" % (k, k),
@@ -138,10 +143,10 @@ def build(case):
             # `import m1` means the file m1.ms; the directory and what it holds play no part
             files["%s/part_%d.ms" % (mod_path(k, layout)[:-3], k)] = "print \"never: part of m%d\"\n" % k
     # simulation
-    out, done, counter = [], set(), {k: 0 for k in range(n)}
+    out, done, counter = [], set(), {k: start(k) for k in range(n)}
 
     def run_module(k):
-        out.append("m%d:0" % k)
+        out.append(tag0(k))
         for slot in (0, 1, 2):
             for (i, j, form, s, dot) in by_src[k]:
                 if s != slot:
@@ -183,6 +188,28 @@ def make_scenario(files, expected):
             "asserts": [{"kind": "stdout_eq", "step": "run", "value": exp}, {"kind": "exit", "step": "run", "in": ["ok"]},
                         {"kind": "exit", "step": "compile", "in": ["ok"]},
                         {"kind": "stdout_eq", "step": "execute", "value": exp}, {"kind": "exit", "step": "execute", "in": ["ok"]}]}
+
+
+def rebuild_scenario(case):
+    """build, edit ONE module, build again: the second build must behave like a first build of the edited project - every module
+    once, the edited one with its new top-level code - under `run` and under `compile` + `execute`"""
+    files1, exp1 = build(dict(case, edited_now=None))
+    files2, exp2 = build(dict(case, edited_now=case["edit"]))
+    changed = [k for k in files1 if files1[k] != files2[k]]
+    sc = make_scenario(files1, exp1)
+    e2 = "\n".join(exp2) + "\n"
+    if case.get("first") == "compile":
+        sc["steps"] = sc["steps"][1:]           # the first build is `compile` + `execute` alone
+        sc["asserts"] = sc["asserts"][2:]
+    for k in changed:
+        sc["steps"].append({"id": "edit:" + k, "op": "write", "path": k, "content": files2[k]})
+    sc["steps"] += [{"id": "run2", "argv": ["mscript", "run", "main.ms", "-q"]},
+                    {"id": "compile2", "argv": ["mscript", "compile", "main.ms", "--quick"]},
+                    {"id": "execute2", "argv": ["mscript", "execute", "main.mmm"], "only_if_ok": "compile2"}]
+    sc["asserts"] += [{"kind": "stdout_eq", "step": "run2", "value": e2}, {"kind": "exit", "step": "run2", "in": ["ok"]},
+                      {"kind": "exit", "step": "compile2", "in": ["ok"]},
+                      {"kind": "stdout_eq", "step": "execute2", "value": e2}, {"kind": "exit", "step": "execute2", "in": ["ok"]}]
+    return sc, files1, exp2
 
 
 def negative_scenario(kind):
@@ -259,7 +286,7 @@ def describe(case):
         return "special:" + case["special"]
     if "negative" in case:
         return "negative:" + case["negative"]
-    return "n=%d layout=%s%s%s edges=%s" % (case["n"], case["layout"], (" infn=%s" % case["infn"]) if case.get("infn") else "", (" profiles=%s" % sorted((case.get("profiles") or {}).items())) if case.get("profiles") else "", " ".join("%d>%d:%s@%d%s" % (i, j, f[0], s, "." if d else "") for i, j, f, s, d in case["edges"]))
+    return "n=%d layout=%s%s%s%s edges=%s" % (case["n"], case["layout"], (" edit=m%d after a first %s" % (case["edit"], case.get("first", "run"))) if case.get("edit") is not None else "", (" infn=%s" % case["infn"]) if case.get("infn") else "", (" profiles=%s" % sorted((case.get("profiles") or {}).items())) if case.get("profiles") else "", " ".join("%d>%d:%s@%d%s" % (i, j, f[0], s, "." if d else "") for i, j, f, s, d in case["edges"]))
 
 
 def check(case):
@@ -277,8 +304,11 @@ def check(case):
         if fails:
             r.failure = fail(describe(case) + ": " + "; ".join(fails), "C11:negative:" + case["negative"], sc, case=case)
         return r
-    files, exp = build(case)
-    sc = make_scenario(files, exp)
+    if case.get("edit") is not None:
+        sc, files, exp = rebuild_scenario(case)
+    else:
+        files, exp = build(case)
+        sc = make_scenario(files, exp)
     res, fails, _ = scenario.execute(sc)
     indeg = {}
     forms = {}
@@ -288,7 +318,8 @@ def check(case):
     nt = any(v >= 2 for v in indeg.values()) or any(len(v) == 2 for v in forms.values())
     formset = set(f for _, _, f, _, _ in case["edges"])
     labels = ["form=" + f for f in sorted(formset)] + ["n=%d" % case["n"], "layout=" + case["layout"]] + (["diamond"] if any(v >= 2 for v in indeg.values()) else []) + \
-             (["dot-spelling"] if any(d for *_, d in case["edges"]) else []) + (["import-inside-function"] if case.get("infn") else []) + ["exports=" + v for v in set((case.get("profiles") or {}).values())]
+             (["dot-spelling"] if any(d for *_, d in case["edges"]) else []) + (["import-inside-function"] if case.get("infn") else []) + ["exports=" + v for v in set((case.get("profiles") or {}).values())] + \
+             (["rebuild-after-edit:" + ("directly-imported" if any(i == 0 and j == case["edit"] for i, j, *_ in case["edges"]) else "imported-through-others")] if case.get("edit") is not None else [])
     r = CaseResult(nt_keys=[describe(case)] if nt else [], labels=labels, sample={"case": describe(case), "main.ms": files["main.ms"], "expected": exp[:12]})
     if fails:
         feats = []
@@ -297,6 +328,8 @@ def check(case):
         if case["layout"] != "flat":
             feats.append("subdir")
         where = "run" if any(f.startswith("step run") for f in fails) else "execute"
+        if case.get("edit") is not None and not any(f.startswith("step run:") or f.startswith("step execute:") or f.startswith("step compile:") for f in fails):
+            feats.append("rebuild-after-edit")
         r.failure = fail(describe(case) + ": " + "; ".join(fails)[:900], "C11:%s:%s" % (where, "+".join(feats) or "plain"), sc, case=case)
     return r
 
@@ -336,6 +369,14 @@ def enumerated(tier, seed):
                 edges = [(i, j, form, b % 3, False) for b, (i, j) in enumerate(es)]
                 for src in sorted(set(i for i, _ in es)):
                     cases.append({"n": n, "edges": edges, "layout": "flat", "infn": [[i, j, form] for i, j in es if i == src]})
+        # the edit / rebuild cycle: the same graphs built, ONE module edited (each in turn), built again
+        for es in all_dags(n):
+            for form in ("module", "names"):
+                edges = [(i, j, form, b % 3, False) for b, (i, j) in enumerate(es)]
+                for k in range(1, n):
+                    for first in ("run", "compile"):
+                        for layout in ("flat", "alt"):
+                            cases.append({"n": n, "edges": edges, "layout": layout, "edit": k, "first": first})
         # the same graphs with a module that exports nothing / only a constant (module-form imports only)
         for es in all_dags(n):
             for j in range(1, n):
@@ -375,6 +416,11 @@ def graphs(draw):
     if layout == "twin":
         g.label("same-file-name-in-several-directories")
         return {"n": n, "edges": edges, "layout": layout, "profiles": {}}
+    if g.chance(25):
+        k = g.int(1, n - 1)
+        if str(k) not in profiles:
+            g.label("rebuild-after-edit")
+            return {"n": n, "edges": edges, "layout": layout, "profiles": profiles, "edit": k, "first": g.choice(["run", "compile"])}
     if infn:
         g.label("import-inside-function")
         return {"n": n, "edges": edges, "layout": layout, "profiles": profiles, "infn": infn}
